@@ -12,9 +12,9 @@ import (
 	"github.com/pion/rtp/codecs"
 )
 
-// recPayloader wraps a real payloader and records what the packetizer asked of it and what it
+// pktzRecPayloader wraps a real payloader and records what the packetizer asked of it and what it
 // answered at the latest call (the model takes these fragments as the payloader's behaviour).
-type recPayloader struct {
+type pktzRecPayloader struct {
 	inner  payloader
 	want   []byte // the payload the harness is about to hand to Packetize
 	calls  int
@@ -23,7 +23,7 @@ type recPayloader struct {
 	frags  [][]byte
 }
 
-func (r *recPayloader) Payload(mtu uint16, payload []byte) [][]byte {
+func (r *pktzRecPayloader) Payload(mtu uint16, payload []byte) [][]byte {
 	r.calls++
 	r.budget = mtu
 	r.same = bytes.Equal(payload, r.want)
@@ -37,8 +37,8 @@ func setPacketizerTimestamp(p rtp.Packetizer, ts uint32) {
 	reflect.ValueOf(p).Elem().FieldByName("Timestamp").SetUint(uint64(ts))
 }
 
-// obsPkt writes one packet observation (format: lean/Driver/Kinds/Pktz.lean, `pkt`).
-func obsPkt(o *Toks, p *rtp.Packet) {
+// pktzObsPkt writes one packet observation (format: lean/Driver/Kinds/Pktz.lean, `pkt`).
+func pktzObsPkt(o *Toks, p *rtp.Packet) {
 	o.Nat(int(p.Version)).Bool(p.Padding).Bool(p.Extension).Bool(p.Marker).Nat(int(p.PayloadType)).
 		Nat(int(p.SequenceNumber)).U64(uint64(p.Timestamp)).U64(uint64(p.SSRC)).Nat(len(p.CSRC))
 	ids := p.GetExtensionIDs()
@@ -94,10 +94,10 @@ func obsPkt(o *Toks, p *rtp.Packet) {
 	o.Bool(rt)
 }
 
-func obsPkts(o *Toks, pkts []*rtp.Packet) {
+func pktzObsPkts(o *Toks, pkts []*rtp.Packet) {
 	o.Nat(len(pkts))
 	for _, p := range pkts {
-		obsPkt(o, p)
+		pktzObsPkt(o, p)
 	}
 }
 
@@ -112,10 +112,10 @@ type pktzCodec struct {
 	simple bool
 }
 
-func rawPayload(r *Rand, n int) []byte { return r.Bytes(n) }
+func pktzRawPayload(r *Rand, n int) []byte { return r.Bytes(n) }
 
-// annexB builds NAL units (header bytes from hdr) separated by 3- or 4-byte start codes.
-func annexB(r *Rand, n int, hdr func(r *Rand) []byte) []byte {
+// pktzAnnexB builds NAL units (header bytes from hdr) separated by 3- or 4-byte start codes.
+func pktzAnnexB(r *Rand, n int, hdr func(r *Rand) []byte) []byte {
 	var out []byte
 	for len(out) < n || len(out) == 0 {
 		if r.Bool() {
@@ -132,19 +132,19 @@ func annexB(r *Rand, n int, hdr func(r *Rand) []byte) []byte {
 	return out
 }
 
-func h264Payload(r *Rand, n int) []byte {
-	return annexB(r, n, func(r *Rand) []byte {
+func pktzH264Payload(r *Rand, n int) []byte {
+	return pktzAnnexB(r, n, func(r *Rand) []byte {
 		return []byte{byte(0x60 | r.Pick(1, 1, 5, 5, 6, 7, 8, 9, 12))}
 	})
 }
 
-func h265Payload(r *Rand, n int) []byte {
-	return annexB(r, n, func(r *Rand) []byte {
+func pktzH265Payload(r *Rand, n int) []byte {
+	return pktzAnnexB(r, n, func(r *Rand) []byte {
 		return []byte{byte(r.Pick(1, 19, 32, 33, 34, 39) << 1), 1}
 	})
 }
 
-func leb128(n int) []byte {
+func pktzLeb128(n int) []byte {
 	var out []byte
 	for {
 		b := byte(n & 0x7f)
@@ -157,8 +157,8 @@ func leb128(n int) []byte {
 	}
 }
 
-// av1Payload builds a temporal unit of OBUs with size fields.
-func av1Payload(r *Rand, n int) []byte {
+// pktzAV1Payload builds a temporal unit of OBUs with size fields.
+func pktzAV1Payload(r *Rand, n int) []byte {
 	var out []byte
 	if r.Bool() {
 		out = append(out, 0x12, 0x00) // temporal delimiter
@@ -170,30 +170,30 @@ func av1Payload(r *Rand, n int) []byte {
 			k = 1
 		}
 		out = append(out, byte(typ<<3|0x02))
-		out = append(out, leb128(k)...)
+		out = append(out, pktzLeb128(k)...)
 		out = append(out, r.Bytes(k)...)
 	}
 	return out
 }
 
 var pktzCodecs = []pktzCodec{
-	{"g711", func(*Rand) payloader { return &codecs.G711Payloader{} }, rawPayload, true},
-	{"g722", func(*Rand) payloader { return &codecs.G722Payloader{} }, rawPayload, true},
-	{"opus", func(*Rand) payloader { return &codecs.OpusPayloader{} }, rawPayload, false},
-	{"vp8", func(r *Rand) payloader { return &codecs.VP8Payloader{EnablePictureID: r.Bool()} }, rawPayload, false},
+	{"g711", func(*Rand) payloader { return &codecs.G711Payloader{} }, pktzRawPayload, true},
+	{"g722", func(*Rand) payloader { return &codecs.G722Payloader{} }, pktzRawPayload, true},
+	{"opus", func(*Rand) payloader { return &codecs.OpusPayloader{} }, pktzRawPayload, false},
+	{"vp8", func(r *Rand) payloader { return &codecs.VP8Payloader{EnablePictureID: r.Bool()} }, pktzRawPayload, false},
 	{"vp9", func(r *Rand) payloader {
 		pid := uint16(r.Intn(0x8000))
 		return &codecs.VP9Payloader{FlexibleMode: r.Bool(), InitialPictureIDFn: func() uint16 { return pid }}
-	}, rawPayload, false},
-	{"h264", func(r *Rand) payloader { return &codecs.H264Payloader{DisableStapA: r.Chance(1, 4)} }, h264Payload, false},
+	}, pktzRawPayload, false},
+	{"h264", func(r *Rand) payloader { return &codecs.H264Payloader{DisableStapA: r.Chance(1, 4)} }, pktzH264Payload, false},
 	{"h265", func(r *Rand) payloader {
 		return &codecs.H265Payloader{AddDONL: r.Chance(1, 4), SkipAggregation: r.Chance(1, 3)}
-	}, h265Payload, false},
-	{"av1", func(*Rand) payloader { return &codecs.AV1Payloader{} }, av1Payload, false},
+	}, pktzH265Payload, false},
+	{"av1", func(*Rand) payloader { return &codecs.AV1Payloader{} }, pktzAV1Payload, false},
 }
 
-// clockValue draws a Unix-nanosecond instant: mostly 2015–2035, sometimes an edge.
-func clockValue(r *Rand) int64 {
+// pktzClockValue draws a Unix-nanosecond instant: mostly 2015–2035, sometimes an edge.
+func pktzClockValue(r *Rand) int64 {
 	switch r.Intn(10) {
 	case 0:
 		return int64(r.Pick(0, 1, 999999999, 1000000000, -1, -1000000000))
@@ -210,6 +210,6 @@ func clockValue(r *Rand) int64 {
 	}
 }
 
-func clockOf(ns *int64) func() time.Time {
+func pktzClockOf(ns *int64) func() time.Time {
 	return func() time.Time { return time.Unix(0, *ns) }
 }
